@@ -88,6 +88,21 @@ CHECKS = {
             "stream index; plus select! start deviations on the worker loop. Oracle: the multiset of (kind, stream id, bytes) returned by "
             "accept calls equals the multiset opened - nothing lost, duplicated, invented or carrying another stream's bytes - before the horizon.",
             SIM_NOTE, "exhaustive enumeration of a bounded scenario grid incl. cancellation points, executed on the real stack under a deterministic simulated environment"),
+    "C09": ("simx", "fault_enumeration", "DESIGN.md §6-C09",
+            "Part 'driver' (fault enumeration on the running stack): termination cause in {peer QUIC close x 4 code/reason pairs, peer close "
+            "capsule x 3, peer FIN, local close x 4, four peer-induced local protocol errors, network partition -> idle timeout, all handles "
+            "dropped with 0..2 uni and 0..2 bidi peer streams still inside their preamble} x role x number of cloned handles. Nine kinds of "
+            "calls are pending when the cause is raised (accept_uni, accept_bi, receive_datagram, closed, open_uni / open_bi with stream "
+            "credit exhausted, read without data, write against a full window, stopped) and six more are issued afterwards; each must "
+            "complete within 2 s of virtual time with a result in the cause's allowed set (the exact cause, or LocallyClosed where the library "
+            "shut the transport down itself; NotConnected for stream calls), no panic anywhere; after 'all handles dropped' the peer must see "
+            "the connection closed well before its idle timeout. Part 'utils' (model checking of driver::utils through hook H3): every "
+            "schedule with <= 3 (4) deviations, from two default orders, of shared_result harnesses (1-2 setters setting or dropping, 1-3 "
+            "getters with 1-2 result() calls each, any subset cancelling and reissuing its first pending call, optional closed()-waiter) and "
+            "bichannel harnesses (capacity 1-2, send / try_send, duplex, receiver dropping early): all readers agree on the first set, None "
+            "only if nobody ever sets, set() true exactly once, FIFO / no loss / no duplication, Closed only after the other end is gone, no deadlock.",
+            SIM_NOTE + " taskx schedules at the points where a task returns Pending (blocking tokio::sync operations and explicit yields).",
+            "exhaustive fault enumeration on the real stack (deterministic simulation) + deviation-bounded exhaustive schedule exploration of the real utils on a controlled task scheduler"),
     "C16": ("simx", "exploration", "DESIGN.md §6-C16",
             "A raw quinn peer records every byte the endpoint emits (both roles) over a grid of requests, decisions, header singletons, "
             "stream sets, datagram lengths and CONNECT stream ids (session ids crossing varint lengths) and the independent reference codec "
